@@ -936,6 +936,20 @@ theorem bases_hyp {D : Decls} {ws w : World} {done : List ClassDef} (cinv : DCla
   · exact Or.inl h
   · exact Or.inr ⟨i + 1, l.f, h1, h2, ck i hi key l hl F (by omega), specPreAt_ne_some_nil ws D key 0 F (i + 1)⟩
 
+/-- every class of a history binds fresh functions: no base has a function that the history has not declared yet as
+its member, so nothing is filtered out of the bases -/
+theorem DClassInv.basesFor_eq {ws w : World} {done : List ClassDef} (cinv : DClassInv ws done)
+    (hcls : w.classes = ws.classes) (bases : List ClsId) (key : String) (f : FnId)
+    (hf : f ∉ (allLevels done).map (·.f)) : basesFor w bases key f = bases := by
+  apply basesFor_eq_self
+  intro b _
+  rw [lookupMember_classes hcls]
+  rcases cinv.base_facts b key with ⟨_, h⟩ | ⟨p, g, _, h2, i, hi, _, l, hl, rfl⟩
+  · rw [h]; exact fun e => by cases e
+  · rw [h2]
+    intro e
+    exact hf ((Option.some.inj e) ▸ mem_allLevels hi hl)
+
 /-- what the function bound to `key` shows after the class body with bases `bases` has been collapsed -/
 def newPre (D : Decls) (ws : World) (bases : List ClsId) (F : Nat) (p : String × ChainLevel) : List (List Nat) :=
   (preStep p.2.pre ((bases.filterMap (parentOf ws p.1 0)).map (fun q => specPreAt ws D F q p.1 0))).getD []
@@ -969,10 +983,10 @@ theorem nsPass_dag (D : Decls) (ws : World) (done : List ClassDef) (bases : List
     · next w1 h1 =>
       have hk : (p.1 != "__init__" && p.1 != "__new__") = true := by
         simp [(hctor p List.mem_cons_self).1, (hctor p List.mem_cons_self).2]
-      simp only [decorateMember, hk] at h1
+      have hpf : p.2.f ∉ (allLevels done).map (·.f) := hfresh p List.mem_cons_self
+      simp only [decorateMember, hk, cinv.basesFor_eq hcls bases p.1 p.2.f hpf] at h1
       simp only [List.map_cons, List.nodup_cons] at hnd
       have fr1 := decorateOne_frame _ _ _ _ _ _ h1
-      have hpf : p.2.f ∉ (allLevels done).map (·.f) := hfresh p List.mem_cons_self
       have ck1 : DCkInv D ws w1 done := ck.frame fr1 (fun f hf => hf ▸ hpf)
       have hown1 : ∀ q ∈ ms, FnSt w1 q.2.f (ownGroups q.2.pre) q.2.posts := by
         intro q hq
